@@ -74,6 +74,51 @@ claim("C18", "DESIGN.md §5 C18",
       "sequence-based: the free variables are exactly the in-range (v,p,n) not fixed by the start/end/adjacency rules. Variable lists and lookups compared with the code on boxes of tuples incl. off-grid and out-of-window ones.",
       "Grid without duplicate values; sequence lookups inside the declared ranges.")
 
+claim("C05", "DESIGN.md §5 C05",
+      "Lean 4 theorems (constraint rows <-> visit-once + flow conservation; unique successor/predecessor; every selected move lies on a depot-to-depot route (strong induction on later arrivals / earlier departures, positive travel times); completeness for every route set; objective = summed arc cost) + correspondence (data, decoding) and exhaustive 2^n comparison with an independent decomposition",
+      "Proved for every instance with a sorted duplicate-free grid and a self-consistent graph: a binary vector satisfies the arc-based constraints iff every customer is arrived at exactly once and flow is conserved at every (customer,time); "
+      "with positive customer-to-customer travel times every selected move then lies on a depot-to-depot route of selected admissible moves (routes are equal or disjoint by uniqueness of successors/predecessors); conversely the indicator of any such route set is feasible; "
+      "the objective is the summed cost of the arcs used. Decoding (get_routes) is modelled operationally and compared with the code and with the independent decomposition on every feasible vector of generated instances (no decode theorem: partial). "
+      "The complete-grid half is exercised in C08.",
+      "Positive customer-to-customer times, no depot self-arc, duplicate-free grid. Decode correctness rests on the correspondence + oracle.")
+claim("C07", "DESIGN.md §5 C07",
+      "Lean 4 theorems (feasible <-> indicator of per-vehicle walks with absorbing depot, both directions, at the level of the model's MPData; representability; objective = move costs + surcharges; strict arcs imply time feasibility by induction along the walk; decoder returns the walks) + correspondence and exhaustive comparison with an independent walk enumeration",
+      "Proved for every graph, V, L >= 3, strict or not: a binary vector satisfies all linear and quadratic constraints iff it is the indicator of walks that start/end at the depot, move along arcs, never leave the depot again and visit every customer once; every such assignment is representable; "
+      "the objective equals the summed move costs plus per-move surcharges; the strict constructor establishes (and later calls keep) the strict arc rule, under which every walk meets all time windows; the operational decoder (sort + pops) returns the walks. "
+      "Data, decoding and objective are compared with the code on every walk assignment of generated instances; all 2^n vectors for n <= 13.",
+      "L >= 3, at least one node, depot self-arc present, depot window start >= 0 and self-arc time 0 for the strict-timing theorem.")
+claim("C08", "DESIGN.md §5 C08",
+      "Composition of the C04-C07 theorems (exact penalty; arc/sequence/path representation theorems) + exhaustive optimisation of the four real models against an independent route-partition optimiser",
+      "The relations between optima follow from the proved representation theorems (path cover = route partitions over the pool, arc feasible sets = grid route sets, sequence feasible sets = walks, default-penalty QUBO minima = constrained optima) through a generic embedding lemma; "
+      "the end-to-end statement 'three optima coincide on a complete grid / all routes' is NOT proved as one theorem (partial) and is decided on every run by exhaustive search: constrained optima and QUBO minima of the real path (all valid routes), arc (complete integer grid), strict and non-strict sequence models "
+      "are compared with a subset-DP optimiser over independently enumerated valid routes.",
+      "Small instances (<= 3 customers, n <= 18); capacity not binding.")
+claim("C09", "DESIGN.md §5 C09",
+      "Lean 4 theorems (a stored vector that satisfies the constraints has feasibility-QUBO value 0 and optimisation-QUBO value = objective, from C02/C03) + oracle on every normal return of the three real heuristics (hand-built, planted, G1 at real horizons, random MIRPs, repeated invocations)",
+      "After every normal return of make_feasible the stored solution is checked on the real object: 0/1, length n, every linear and quadratic constraint of the data then reported, QUBO values; path- and sequence-based heuristics must not raise under their stated preconditions. "
+      "The QUBO-value corollaries are theorems; soundness of the three greedy algorithms themselves is not yet a theorem (partial) and rests on the every-return oracle.",
+      "Preconditions of the 'always succeeds' clauses as listed in the evidence.")
+claim("C10", "DESIGN.md §5 C10",
+      "Lean 4 theorems at record level (records = exactly the non-zero coefficients, each once at its own indices, rounded; loader recovers them entrywise; reloaded Ising energy = energy of the rounded problem at every spin vector; identity on hundredths; integer QUBOs give hundredth Ising coefficients hence exact reload) + byte-level comparison of the written file, loader comparison, test-set generator run",
+      "Proved: export lists every non-zero linear and coupling coefficient exactly once at its own indices rounded to two decimals (half-even) with the constant, nothing else; loading the file yields entrywise the rounded coefficients (dimension <= n, missing trailing variables have no coefficient), so the energy functions agree at every spin vector; "
+      "exact for feasibility instances (integer QUBO). The text layout is produced from the record model and compared byte-for-byte with the real file (minus timestamp); the package's loader output is compared with the model; gen() on small horizons: file names vs variable counts, saved constraint data reloaded through convenience().",
+      "Character-level parse/render is compared, not proved; file I/O, np.savez/pickle exercised, not proved.")
+claim("C14", "DESIGN.md §5 C14",
+      "Twin-run oracle on real objects (history with vs without the queries preceding the heuristic; every query twice; battery in two orders); Lean side: C18 theorems make every query a function of the instance state",
+      "Every query of the model is a pure function of the instance state (variable lists, data, QUBO are functions of (graph, grid | pool | V, L, surcharges): C02/C18 theorems), so the property reduces to: the real object's answers depend only on its instance state, and the heuristic's effect does not depend on earlier queries. "
+      "That reduction (cache coherence of the real object) is decided by the twin-run check on generated histories; a Lean cache state machine with a refinement proof is not merged yet (partial).",
+      "Cache coherence of the Python object is established by differential testing over histories, not by a theorem.")
+claim("C16", "DESIGN.md §5 C16",
+      "Differential test on real objects: deep value snapshots of the source after every step, object-identity disjointness, fingerprints of the three formulations under all 6 request orders, getter idempotence",
+      "Isolation is a statement about Python object aliasing (copy.deepcopy); no Lean theorem carries it yet (an object-store model is planned: partial). Decided on every run by snapshots of the source VRPTW/MIRP before/after construction, heuristics and queries, identity-disjointness of nodes/arcs/containers, "
+      "and equality of complete fingerprints of each formulation across all 6 request orders.",
+      "Runtime aliasing behaviour is tested, not proved.")
+claim("C17", "DESIGN.md §5 C17",
+      "Subprocess differential test over PYTHONHASHSEED values and prior global-RNG states + in-process rebuilds; Lean side: time grid = sorted de-duplicated list is order independent (C18 sortRat theorem)",
+      "Reproducibility across interpreter runs is runtime behaviour: decided by building the same instance in separate processes under PYTHONHASHSEED in {0,1,random} and after 0/5/50 prior draws and comparing complete fingerprints (variable order, data, QUBO, solution, routes, exported lines); same explicit seed gives the same random MIRP. "
+      "The Lean model contributes the order-independence of the sorted grid; an explicit RNG-dataflow model is planned (partial).",
+      "Hash randomisation, numpy RNG, scipy.stats are trusted runtime components exercised by the test.")
+
 for _p in ["C02", "C03", "C04", "C05", "C06", "C07", "C08", "C09", "C10", "C11", "C12", "C13", "C14", "C15", "C16", "C17", "C18", "C19", "C20"]:
     if _p not in CLAIMED:
         NOT_YET[_p] = "check under construction in this round (see DESIGN.md §10 order of construction); not claimed until its command exists"
